@@ -1,223 +1,11 @@
 /-
-  C15 — the statements the edit operations of tree/tree.go are made of, as heap programs
-  (layout of `C15HeapCopy.lean`: Tree [root, tip index]; Node [comment array, neigh array,
-  br array]; Edge [left, right, comment array, bitset]; an array cell holds its elements).
-
-  | Go statement                                             | program            |
-  |----------------------------------------------------------|--------------------|
-  | e.length = x, e.support = x, n.name = s, n.id = i, n.depth = d, n.comment = n.comment[:0] (slice header) | `setScalar`  |
-  | n.comment = append(n.comment, c)   within capacity       | `setScalar` on the array cell |
-  | … beyond capacity (new backing array)                    | `appendRealloc`    |
-  | n.neigh[i] = m, n.br[i] = e, delNeighbor, copy(…)         | `setElems`         |
-  | e.left = a; e.right = b; e.Inverse()                      | `setRefs`          |
-  | t.root = n                                                | `setRefs` on []    |
-  | t.NewNode(), t.NewEdge(), ConnectNodes                    | `newNode`, `newEdgeBetween` |
-
-  `Reroot` = `t.root = n` + `Inverse` on the branches of the path; `removeTip`, `RemoveEdges`
-  (CollapseShortBranches, CollapseLowSupport), `Resolve`, `GraftTipOnEdge`, `InsertIdenticalTip`,
-  `removeSingleNodesRecur`, the NNI `Apply`, `RotateNeighbors`, `ShuffleTips`, `Rename` are
-  sequences of these statements whose operands are found by navigation from the receiver
-  (`t.Root()`, `n.neigh[i]`, `n.br[i]`, `e.left`, `e.right`, the tip index) — which is all the
-  frame theorem needs: `progs_frame` holds for EVERY list of such programs, so no particular
-  decomposition has to be trusted.  Core Lean only.
+  C15 — the heap programs of `Model/C15HeapEdits.lean` are local (as every heap program is).
+  Core Lean only.
 -/
 import Gotree.Lemmas.C15HeapCopy
+import Gotree.Model.C15HeapEdits
 
 namespace Gotree.C15.Heap
-
-/-- store into the non-reference part of the cell at path `p` -/
-def setScalar (p : List Nat) (v : Nat) : H → List Op := fun _ => [.setData (.path p) v]
-
-/-- replace the reference fields / the elements of the cell at `p` by cells found at the paths `l` -/
-def setRefs (p : List Nat) (l : List (List Nat)) : H → List Op := fun _ => [.setPtrs (.path p) (l.map .path)]
-
-abbrev setElems := setRefs
-
-/-- `x.f = append(x.f, y)` with a new backing array: allocate it, fill it with the old elements
-    (`n` of them) and the new one, and store it in reference field `f` (of `nf`) of the struct at `owner` -/
-def appendRealloc (owner : List Nat) (f nf n : Nat) (y : List Nat) : H → List Op := fun _ =>
-  [.alloc,
-   .setPtrs (.fresh 0) ((List.range n).map (fun i => Src.path (owner ++ [f, i])) ++ [.path y]),
-   .setPtrs (.path owner) ((List.range nf).map fun j => if j = f then Src.fresh 0 else Src.path (owner ++ [j]))]
-
-/-- `t.NewNode()` hung as a new last neighbour of the node at `parent` (which has `n` neighbours),
-    through a new branch: `ConnectNodes(parent, NewNode())` with reallocation of both slices -/
-def connectNewNode (parent : List Nat) (n : Nat) : H → List Op := fun _ =>
-  [.alloc, .alloc, .alloc, .alloc,          -- node struct, its comment / neigh / br arrays   (fresh 0..3)
-   .alloc, .alloc,                          -- edge struct, its comment array                 (fresh 4, 5)
-   .alloc, .alloc,                          -- the parent's new neigh / br arrays             (fresh 6, 7)
-   .setPtrs (.fresh 0) [.fresh 1, .fresh 2, .fresh 3],
-   .setPtrs (.fresh 2) [.path parent],
-   .setPtrs (.fresh 3) [.fresh 4],
-   .setPtrs (.fresh 4) [.path parent, .fresh 0, .fresh 5],
-   .setPtrs (.fresh 6) ((List.range n).map (fun i => Src.path (parent ++ [1, i])) ++ [.fresh 0]),
-   .setPtrs (.fresh 7) ((List.range n).map (fun i => Src.path (parent ++ [2, i])) ++ [.fresh 4]),
-   .setPtrs (.path parent) [.path (parent ++ [0]), .fresh 6, .fresh 7]]
-
-/-- `SetLength` on the branch to the `i`-th neighbour of the node at `n` -/
-def setLength (n : List Nat) (i : Nat) (v : Nat) : H → List Op := setScalar (n ++ [2, i]) v
-
-/-- `SetName` -/
-def setName (n : List Nat) (v : Nat) : H → List Op := setScalar n v
-
-/-- `AddComment` within capacity: the write goes into the (possibly shared!) backing array -/
-def addCommentInPlace (n : List Nat) (v : Nat) : H → List Op := setScalar (n ++ [0]) v
-
-/-- `delNeighbor(i)` on the node at `n` with `k` neighbours: both slices lose element `i` -/
-def delNeighbor (n : List Nat) (k i : Nat) : H → List Op := fun _ =>
-  [.setPtrs (.path (n ++ [1])) (((List.range k).filter (· ≠ i)).map fun j => Src.path (n ++ [1, j])),
-   .setPtrs (.path (n ++ [2])) (((List.range k).filter (· ≠ i)).map fun j => Src.path (n ++ [2, j]))]
-
-/-- `e.Inverse()` on the branch at `e` -/
-def inverse (e : List Nat) : H → List Op := setRefs e [e ++ [1], e ++ [0], e ++ [2], e ++ [3]]
-
-/-- `t.root = n` -/
-def setRoot (n : List Nat) : H → List Op := setRefs [] [n, [1]]
-
-/-- one step of `Reroot` towards the `i`-th neighbour of the root: new root, branch turned round -/
-def rerootStep (i : Nat) : List (H → List Op) := [inverse [0, 2, i], setRoot [0, 1, i]]
-
-/-- `removeTip` when the parent (at `p`, `k ≥ 4` neighbours, or the root with `k ≥ 3`) keeps enough
-    neighbours: the tip at slot `i` is cut off (`delNeighbor`; the tip's own cells become garbage) -/
-def removeTipSimple (p : List Nat) (k i : Nat) : List (H → List Op) := [delNeighbor p k i]
-
-/-- `x[i] = y` for the array cell at `arr` (its current length is read from the heap: reads are free) -/
-def setElemAt (r : Addr) (arr : List Nat) (i : Nat) (y : List Nat) : H → List Op := fun h =>
-  match follow h r arr with
-  | some a => [.setPtrs (.path arr) ((List.range (h.ptrs a).length).map fun j => if j = i then Src.path y else Src.path (arr ++ [j]))]
-  | none => []
-
-/-- `removeTip` when the parent `n` (the `a`-th neighbour of `g`) is left with two neighbours — `g` and
-    the sibling at slot `sib` of `n` — and is suppressed: the branch `g`–`n` is kept and now ends at the
-    sibling (`e.right = sibling`), its length becomes `len` (the sum); `g.neigh[a] = sibling`; the sibling's
-    slot `back` (where `n` was) now holds `g` and that branch -/
-def removeTipFuse (r : Addr) (g : List Nat) (a sib back : Nat) (len : Nat) : List (H → List Op) :=
-  let n := g ++ [1, a]
-  let s := n ++ [1, sib]
-  let e := g ++ [2, a]
-  -- order matters: every path is resolved in the heap as the earlier statements left it
-  [ setElemAt r (s ++ [1]) back g,                      -- sibling.neigh[back] = g
-    setElemAt r (s ++ [2]) back e,                      -- sibling.br[back]    = e
-    setRefs e [e ++ [0], s, e ++ [2], e ++ [3]],        -- e.right = sibling
-    setScalar e len,                                    -- e.length = sum
-    setElemAt r (g ++ [1]) a (e ++ [1]) ]               -- g.neigh[a] = sibling (= e.right now)
-
-/-- `RemoveEdges` on one inner branch (CollapseShortBranches / CollapseLowSupport): the child `m` (slot `i`
-    of `n` at `p`, which has `k` neighbours; `m` has `km` neighbours, its parent at slot `up`) disappears:
-    its other branches are turned towards `n` and appended, with their far ends, to `n`'s slices (with
-    reallocation), then `m` is cut off -/
-def collapseEdge (p : List Nat) (k i km up : Nat) : List (H → List Op) :=
-  let m := p ++ [1, i]
-  (((List.range km).filter (· ≠ up)).zipIdx).flatMap (fun (j, done) =>
-    [ setRefs (m ++ [2, j]) [p, m ++ [2, j, 1], m ++ [2, j, 2], m ++ [2, j, 3]],   -- e.left = n
-      appendRealloc p 1 3 (k + done) (m ++ [1, j]),                                 -- n.neigh = append(n.neigh, c)
-      appendRealloc p 2 3 (k + done) (m ++ [2, j]) ])                               -- n.br = append(n.br, e)
-  ++ [delNeighbor p k i]
-
-/-- `Reroot(n)` for the node at heap path `[0] ++ steps` (pairs `1, slot` from the root node): every
-    branch of the path is turned round (`ReorderEdges`), then `t.root = n`.  The branch of step `j` is
-    `br[slot j]` of the `j`-th node of the path; all paths are taken from the OLD root, so the turns come
-    first. -/
-def rerootProgs : List Nat → List (H → List Op)
-  | slots =>
-    let rec go : List Nat → List Nat → List (H → List Op)
-      | _, [] => []
-      | node, s :: rest => inverse (node ++ [2, s]) :: go (node ++ [1, s]) rest
-    let target := slots.foldl (fun p s => p ++ [1, s]) [0]
-    go [0] slots ++ [setRoot target]
-
-/-! ### the anchored operations of C15, statement by statement
-
-  The edited tree and an argument tree hang below a frame cell: `[0]` = Tree struct of the receiver,
-  `[1]` = Tree struct of the argument; `[0, 0]` = root node of the receiver.  `NewNode` takes 4 cells
-  (struct, comment / neigh / br arrays), `NewEdge` 3 (struct, comment array, "no bitset"). -/
-
-def elems (arr : List Nat) (n : Nat) : List Src := (List.range n).map fun j => Src.path (arr ++ [j])
-
-def elemsSet (arr : List Nat) (n i : Nat) (y : Src) : List Src :=
-  (List.range n).map fun j => if j = i then y else Src.path (arr ++ [j])
-
-def newNodeOps (k : Nat) : List Op :=
-  [.alloc, .alloc, .alloc, .alloc, .setPtrs (.fresh k) [.fresh (k + 1), .fresh (k + 2), .fresh (k + 3)]]
-
-def newEdgeOps (k : Nat) (left right : Src) : List Op :=
-  [.alloc, .alloc, .alloc, .setPtrs (.fresh k) [left, right, .fresh (k + 1), .fresh (k + 2)]]
-
-/-- `GraftTreeOnTip` (tree.go:2233): `parN` = heap path of the tip's parent (which has `kn` neighbours),
-    `idx` = slot of the tip there, `tr` = root node of the graft (which has `kt` neighbours):
-    `parE.setRight(tr); parN.neigh[idx] = tr; tr.addChild(parN, parE)` -/
-def graftProg (parN : List Nat) (kn idx : Nat) (tr : List Nat) (kt : Nat) : H → List Op := fun _ =>
-  let parE := parN ++ [2, idx]
-  [ .setPtrs (.path parE) [.path (parE ++ [0]), .path tr, .path (parE ++ [2]), .path (parE ++ [3])],
-    .setPtrs (.path (parN ++ [1])) (elemsSet (parN ++ [1]) kn idx (.path tr)),
-    .setPtrs (.path (tr ++ [1])) (elems (tr ++ [1]) kt ++ [.path parN]),
-    .setPtrs (.path (tr ++ [2])) (elems (tr ++ [2]) kt ++ [.path parE]) ]
-
-/-- `Merge` (tree.go:1830), both roots having two neighbours: `newroot := t.NewNode();
-    t.ConnectNodes(newroot, t.Root()); t.ConnectNodes(newroot, t2.Root()); t.SetRoot(newroot)` -/
-def mergeProg : H → List Op := fun _ =>
-  let r1 := [0, 0]
-  let r2 := [1, 0]
-  newNodeOps 0 ++ newEdgeOps 4 (.fresh 0) (.path r1) ++ newEdgeOps 7 (.fresh 0) (.path r2) ++
-  [ .setPtrs (.fresh 2) [.path r1, .path r2], .setPtrs (.fresh 3) [.fresh 4, .fresh 7],
-    .setPtrs (.path (r1 ++ [1])) (elems (r1 ++ [1]) 2 ++ [.fresh 0]), .setPtrs (.path (r1 ++ [2])) (elems (r1 ++ [2]) 2 ++ [.fresh 4]),
-    .setPtrs (.path (r2 ++ [1])) (elems (r2 ++ [1]) 2 ++ [.fresh 0]), .setPtrs (.path (r2 ++ [2])) (elems (r2 ++ [2]) 2 ++ [.fresh 7]),
-    .setPtrs (.path [0]) [.fresh 0, .path [0, 1]] ]
-
-/-- `InsertIdenticalTip`, zero-length branch (tree.go:2188–2192): `newtip := NewNode(); e1 := ConnectNodes(parent, newtip)` -/
-def insertZeroProg (parN : List Nat) (kn : Nat) : H → List Op := fun _ =>
-  newNodeOps 0 ++ newEdgeOps 4 (.path parN) (.fresh 0) ++
-  [ .setPtrs (.path (parN ++ [1])) (elems (parN ++ [1]) kn ++ [.fresh 0]),
-    .setPtrs (.path (parN ++ [2])) (elems (parN ++ [2]) kn ++ [.fresh 4]),
-    .setPtrs (.fresh 2) [.path parN], .setPtrs (.fresh 3) [.fresh 4] ]
-
-/-- `InsertIdenticalTip`, the cherry (tree.go:2193–2221); `idx` = slot of the tip `n` in its parent
-    (`e_ind`), the tip's own slot for its parent is 0 (`n_ind`: a tip has one neighbour) -/
-def insertCherryProg (parN : List Nat) (kn idx : Nat) : H → List Op := fun _ =>
-  let n := parN ++ [1, idx]
-  let parE := parN ++ [2, idx]
-  -- fresh: 0..3 newtip, 4..7 newinternal, 8..10 newedge, 11..13 newedge1
-  newNodeOps 0 ++ newNodeOps 4 ++ newEdgeOps 8 (.fresh 4) (.fresh 0) ++ newEdgeOps 11 (.fresh 4) (.path n) ++
-  [ .setPtrs (.fresh 2) [.fresh 4], .setPtrs (.fresh 3) [.fresh 8],                                   -- newtip.neigh / br
-    -- n.neigh[0] = newinternal ; n.br[0] = newedge1   (before parN.neigh[idx] changes what `n` means)
-    .setPtrs (.path (n ++ [1])) [.fresh 4], .setPtrs (.path (n ++ [2])) [.fresh 11],
-    -- newinternal: [newtip, parent, n] / [newedge, parentedge, newedge1]
-    .setPtrs (.fresh 6) [.fresh 0, .path parN, .path n], .setPtrs (.fresh 7) [.fresh 8, .path parE, .fresh 11],
-    -- parentedge.setRight(newinternal) ; parentnode.neigh[e_ind] = newinternal
-    .setPtrs (.path parE) [.path (parE ++ [0]), .fresh 4, .path (parE ++ [2]), .path (parE ++ [3])],
-    .setPtrs (.path (parN ++ [1])) (elemsSet (parN ++ [1]) kn idx (.fresh 4)) ]
-
-def elemsWithout (arr : List Nat) (n i : Nat) : List Src :=
-  ((List.range n).filter (· ≠ i)).map fun j => Src.path (arr ++ [j])
-
-/- `RemoveSingleNodes` / `removeSingleNodesRecur` (tree.go:1280–1347), one program per removed node, in the
-   order of the code (post-order).  `P` = heap path of `previous`, which has `kn` neighbours throughout (one
-   child leaves, its child arrives); the `i`-th child sits at slot `slot … i − removed` when its turn comes.
-   Per removal: `child.neigh[idx] = previous; child.br[idx].left = previous;` then `delNeighbor` on both
-   slices of `previous` and `addChild(child, br)` — written as one store per slice, `br` first because the
-   branch is found through `previous.neigh`. -/
-mutual
-def rsProgs : T → List Nat → Bool → List (H → List Op)
-  | .node _ pp kids, P, isRoot => rsKidsProgs kids P isRoot pp 0 0 (kids.length + if isRoot then 0 else 1)
-def rsKidsProgs : Kids → List Nat → Bool → Nat → Nat → Nat → Nat → List (H → List Op)
-  | [], _, _, _, _, _, _ => []
-  | (_, t) :: rest, P, isRoot, pp, i, removed, kn =>
-    let cs := slot isRoot pp i - removed
-    let cur := P ++ [1, cs]
-    let inner := rsProgs t cur false
-    match (rsNode fuseLenGo t).kids with
-    | [(_, x)] =>
-      let xs := slot false (rsNode fuseLenGo t).ppos 0
-      let xp := cur ++ [1, xs]
-      let ex := cur ++ [2, xs]
-      let prog : H → List Op := fun _ =>
-        [ .setPtrs (.path (xp ++ [1])) (elemsSet (xp ++ [1]) (x.kids.length + 1) x.ppos (.path P)),
-          .setPtrs (.path ex) [.path P, .path (ex ++ [1]), .path (ex ++ [2]), .path (ex ++ [3])],
-          .setPtrs (.path (P ++ [2])) (elemsWithout (P ++ [2]) kn cs ++ [.path ex]),
-          .setPtrs (.path (P ++ [1])) (elemsWithout (P ++ [1]) kn cs ++ [.path xp]) ]
-      inner ++ [prog] ++ rsKidsProgs rest P isRoot pp (i + 1) (removed + 1) kn
-    | _ => inner ++ rsKidsProgs rest P isRoot pp (i + 1) removed kn
-end
 
 /-- all of them — and any other program — are local -/
 theorem edits_local (r : Addr) (p : H → List Op) : Local r (runProg r p) ∧ KeepsAlloc r (runProg r p) :=
